@@ -280,7 +280,7 @@ PROPS = {
                         "timing: handlers end within 2x the request timeout; 90 ms are enough for K+2 loopback queries to reach the resolver"],
     },
     "C05": {
-        "proof_files": ["Proofs/ReplyFacts.v"],
+        "proof_files": ["Proofs/ReplyFacts.v", "Proofs/FrameStream.v"],
         "generated": {"cmd": ["consts-extract"], "out": "Gen/SrcConsts.v",
                       "compile": ["Gen/SrcConsts.v", "Properties/C05_consts.v"], "theorem": "C05_consts_agree"},
         "runs": [
